@@ -7,6 +7,7 @@ RULE = ("All 65,536 codes x 13 lookups (19 answers per code: the exported maps, 
         "every code in every run has exactly the specification's answers. Block layout: every (signing, crypto) pair parsed through 9 "
         "identity entry points and built through 4 constructors with position-dependent key/padding bytes; signature / offline-signature / "
         "encrypted-leaseset readers for every type. Non-trivial = a lookup run or an accepted identity whose layout was compared.")
+RULE += (' Keys constructed through a KeyCertificate (start/end alignment, declared lengths); LeaseSet2 key-size validation over multi-key sets in every order.')
 ASSUME = [common.TRUSTED, "the specification's table is Tables.tla (I2P 0.9.67 common structures), written independently of key_sizes.go"]
 META = {
     "level": "model_checking",
